@@ -16,3 +16,5 @@ def run(chk):
     core_rules.ownership_rules(chk, "C02", roles=("CAPITAL", "POSITION"))
     core_rules.refresh_before_trade(chk, "C02")
     backtest_rules.run_loop(chk, "C02")
+    from .c17 import strategy_transact
+    strategy_transact(chk)
